@@ -1,4 +1,5 @@
 import Falcon.Lemmas.CodecRefine
+import Falcon.Lemmas.CompressRefine
 import Falcon.Gen.Params
 
 /-!
@@ -25,6 +26,12 @@ theorem source_constants :
 theorem decompress_refines (chk : Bool) (x : List Nat) (hx : ∀ b ∈ x, b < 256) (n : Nat) (hn : 1 ≤ n) :
     Codec.decompress chk x n = .ok (decompressRef 95 x n) :=
   Codec.decompress_eq_spec chk x hx n hn
+
+/-- **refinement**: the byte-level model of `compress` (per coefficient four OR-writes at bit offsets into a
+    zeroed buffer; separate handling of the last coefficient) is Algorithm 17, for every vector (no range
+    restriction) and every byte budget; in particular it never indexes out of bounds -/
+theorem compress_refines (v : List Int) (L : Nat) : Codec.compress v L = .ok (compressRef v L) :=
+  Codec.compress_eq_spec v L
 
 /-- compression fails exactly when the vector is empty or its encoding does not fit the byte budget -/
 theorem compress_fits_iff (v : List Int) (L : Nat) :
@@ -54,6 +61,19 @@ theorem compress_roundtrip (v : List Int) (L : Nat) (x : List Nat)
     simp only [decompressRef, hn, if_false]
     rw [unpack_pack L _ hlen]
     exact decBits_encBits 95 v _ (fun c hc' => by have := hv c hc'; omega)
+
+/-- the round trip on the byte-level models of the two Rust functions, both build modes -/
+theorem compress_decompress_bytes (chk : Bool) (v : List Int) (L : Nat) (x : List Nat)
+    (hv : ∀ c ∈ v, c.natAbs < 12160) (h : Codec.compress v L = .ok (some x)) :
+    Codec.decompress chk x v.length = .ok (some v) := by
+  rw [compress_refines] at h
+  have h' : compressRef v L = some x := by injection h
+  obtain ⟨hd, _, hwf⟩ := compress_roundtrip v L x hv h'
+  have hne : 1 ≤ v.length := by
+    rcases v with _ | ⟨c, cs⟩
+    · simp [compressRef, compressBits] at h'
+    · simp
+  rw [decompress_refines chk x hwf v.length hne, hd]
 
 /-- canonical: a byte string the decompressor accepts is exactly what compressing the returned vector
     into the same budget produces; the vector has the requested length and entries below 12160 -/
@@ -148,6 +168,7 @@ theorem truncated_rejected (cap : Nat) (bs : List Bool) (h : bs.length < 9) : de
 /-! ### non-vacuity -/
 example : compressRef [-771, 100] 3 = some [0x83, 0x02, 0xC9] := by decide
 example : decompressRef 95 [0x83, 0x02, 0xC9] 2 = some [-771, 100] := by decide
+example : Codec.compress [-771, 100] 3 = .ok (some [0x83, 0x02, 0xC9]) := by decide
 example : decompressRef 95 [0x80, 0x80] 1 = none := by decide          -- "-0"
 example : decompressRef 95 [0x00, 0x81] 1 = none := by decide          -- dirty padding
 
